@@ -13,8 +13,10 @@ Edge labels: 'next', 'T', 'F', 'exc' (exception raised by the source node),
 'loop' (for: next item), 'done' (for: exhausted), 'back'.
 """
 import ast
+import copy
 
 from .core import AnalysisError
+from .inline import InlineBlock
 
 
 class Node:
@@ -100,13 +102,14 @@ def _walk_no_nested(a):
 
 class _Ctx:
     """Where control goes for each kind of abrupt completion."""
-    __slots__ = ("exc", "ret", "brk", "cont")
+    __slots__ = ("exc", "ret", "brk", "cont", "rett")
 
-    def __init__(self, exc, ret, brk=None, cont=None):
+    def __init__(self, exc, ret, brk=None, cont=None, rett=None):
         self.exc, self.ret, self.brk, self.cont = exc, ret, brk, cont
+        self.rett = rett     # inside an inlined call: (target,) of `return`
 
     def replace(self, **kw):
-        c = _Ctx(self.exc, self.ret, self.brk, self.cont)
+        c = _Ctx(self.exc, self.ret, self.brk, self.cont, self.rett)
         for k, v in kw.items():
             setattr(c, k, v)
         return c
@@ -233,7 +236,39 @@ class CFG:
                     if s.orelse else [(head, "done")])
             self._connect(oend, after)
             return [(after, "next")] if after.pred else []
+        if isinstance(s, InlineBlock):
+            after = self._new("join", None, {"inline_end": s})
+            ictx = ctx.replace(ret=lambda: after, brk=None, cont=None,
+                               rett=(s.target,))
+            bend = self._block(s.body, ins, ictx)
+            if bend and s.target is not None:
+                # falling off the end of the callee returns None
+                a = ast.copy_location(ast.Assign(
+                    [copy.deepcopy(s.target)], ast.Constant(None)), s)
+                ast.fix_missing_locations(a)
+                n = self._new("stmt", a, {"inline_return": s})
+                self._connect(bend, n)
+                bend = [(n, "next")]
+            self._connect(bend, after)
+            return [(after, "next")] if after.pred else []
         if isinstance(s, ast.Return):
+            if ctx.rett is not None:
+                tgt = ctx.rett[0]
+                if tgt is not None:
+                    a = ast.copy_location(ast.Assign(
+                        [copy.deepcopy(tgt)],
+                        s.value if s.value is not None
+                        else ast.Constant(None)), s)
+                else:
+                    a = ast.copy_location(ast.Expr(
+                        s.value if s.value is not None
+                        else ast.Constant(None)), s)
+                ast.fix_missing_locations(a)
+                n = self._new("stmt", a, {"inline_return": True})
+                self._connect(ins, n)
+                self._raise_edge(n, ctx)
+                self._edge(n, "next", ctx.ret())
+                return []
             n = self._simple(s, ins, ctx)
             self._edge(n, "next", ctx.ret())
             return []
